@@ -9,18 +9,26 @@ machine elsewhere (`skip = ticks` is C15/C16 lifted to `CoreTiming`; "the body i
 while idling with nothing pending" is the self-branch lemma).
 -/
 namespace Teakra.LoopOps
-variable {S : Type} (o : LoopOps S)
+variable {ε S : Type} (o : LoopOps ε S)
 
 /-- What the fast path needs from the machine. -/
-structure FastForwardOk (o : LoopOps S) where
+structure FastForwardOk (o : LoopOps ε S) where
+  /-- an invariant of the machine: kept by a tick, and re-established by every loop body that is
+  followed by a successful tick (the tick checks the peripherals' configuration) -/
+  P : S → Prop
+  P_tick : ∀ s s', P s → o.tick s = .ok s' → P s'
+  P_cycle : ∀ s s1 s2, P s → o.body s = .ok s1 → o.tick s1 = .ok s2 → P s2
+  /-- the largest cycle budget the statement covers (`Run` takes a 64-bit count) -/
+  bound : Nat
   /-- horizon reported by the peripherals in a state -/
   horizon : S → Nat
   /-- `Skip(m)` advances by `k = min m horizon` cycles and equals `k` ticks -/
-  skip_eq : ∀ s m, o.skip s m = (o.ticksN (min m (horizon s)) s).map fun s' => (s', min m (horizon s))
+  skip_eq : ∀ s m, P s → o.skipAllowed s = true → m < bound →
+    o.skip s m = (o.ticksN (min m (horizon s)) s).map fun s' => (s', min m (horizon s))
   /-- while the fast-forward condition holds and within the horizon, ticks keep it true … -/
-  quiet : ∀ s, o.skipAllowed s = true → ∀ j, j ≤ horizon s → ∀ s', o.ticksN j s = .ok s' → o.skipAllowed s' = true
+  quiet : ∀ s, P s → o.skipAllowed s = true → ∀ j, j ≤ horizon s → ∀ s', o.ticksN j s = .ok s' → o.skipAllowed s' = true
   /-- … and the loop body is the identity on such states (the core only re-executes its self-branch) -/
-  idle_body : ∀ s, o.skipAllowed s = true → o.body s = .ok s
+  idle_body : ∀ s, P s → o.skipAllowed s = true → o.body s = .ok s
 
 variable {o}
 
@@ -50,44 +58,72 @@ private theorem cyclesN_add (a b : Nat) (s : S) :
       | error e => rfl
       | ok s2 => simp only []; exact ih s2
 
+private theorem P_ticksN (h : FastForwardOk o) (k : Nat) : ∀ s s', h.P s → o.ticksN k s = .ok s' → h.P s' := by
+  induction k with
+  | zero => intro s s' hp ht; simp only [ticksN] at ht; cases ht; exact hp
+  | succ k ih =>
+    intro s s' hp ht
+    simp only [ticksN] at ht
+    cases h1 : o.tick s with
+    | error e => rw [h1] at ht; cases ht
+    | ok s1 => rw [h1] at ht; exact ih s1 s' (h.P_tick s s1 hp h1) ht
+
+/-- The invariant holds after any number of completed single cycles. -/
+theorem P_cyclesN (h : FastForwardOk o) (k : Nat) : ∀ s s', h.P s → o.cyclesN k s = .ok s' → h.P s' := by
+  induction k with
+  | zero => intro s s' hp ht; simp only [cyclesN] at ht; cases ht; exact hp
+  | succ k ih =>
+    intro s s' hp ht
+    simp only [cyclesN] at ht
+    cases h1 : o.body s with
+    | error e => rw [h1] at ht; cases ht
+    | ok s1 =>
+      rw [h1] at ht
+      cases h2 : o.tick s1 with
+      | error e => simp only [bind, Except.bind, h2] at ht; cases ht
+      | ok s2 =>
+        simp only [bind, Except.bind, h2] at ht
+        exact ih s2 s' (h.P_cycle s s1 s2 hp h1 h2) ht
+
 /-- While idling, single cycles are just ticks — up to one cycle past the horizon (the body of
 that last cycle still runs in a state inside the horizon). -/
 private theorem cycles_eq_ticks (h : FastForwardOk o) (k : Nat) :
-    ∀ s, o.skipAllowed s = true → k ≤ h.horizon s + 1 → o.cyclesN k s = o.ticksN k s := by
+    ∀ s, h.P s → o.skipAllowed s = true → k ≤ h.horizon s + 1 → o.cyclesN k s = o.ticksN k s := by
   induction k with
-  | zero => intro s _ _; rfl
+  | zero => intro s _ _ _; rfl
   | succ k ih =>
-    intro s hs hk
+    intro s hp hs hk
     -- split off the LAST cycle instead of the first, so the horizon of `s` bounds everything
-    rw [cyclesN_add k 1, ticksN_add k 1, ih s hs (by omega)]
+    rw [cyclesN_add k 1, ticksN_add k 1, ih s hp hs (by omega)]
     cases hk' : o.ticksN k s with
     | error e => rfl
     | ok s' =>
-      have hq := h.quiet s hs k (by omega) s' hk'
-      simp only [bind, Except.bind, cyclesN, ticksN, h.idle_body s' hq]
+      have hq := h.quiet s hp hs k (by omega) s' hk'
+      have hp' := P_ticksN h k s s' hp hk'
+      simp only [bind, Except.bind, cyclesN, ticksN, h.idle_body s' hp' hq]
 
-private theorem bind_assoc' {α β γ : Type} (x : R α) (f : α → R β) (g : β → R γ) :
+private theorem bind_assoc' {α β γ : Type} (x : Except ε α) (f : α → Except ε β) (g : β → Except ε γ) :
     (x >>= f) >>= g = x >>= fun a => f a >>= g := by
   cases x <;> rfl
 
 /-- The `for` loop from index `i` equals `cycles − i` single cycles. -/
-theorem go_eq_cycles (h : FastForwardOk o) (cycles : Nat) :
-    ∀ fuel i s, cycles - i ≤ fuel → o.go cycles fuel i s = o.cyclesN (cycles - i) s := by
+theorem go_eq_cycles (h : FastForwardOk o) (cycles : Nat) (hc : cycles ≤ h.bound) :
+    ∀ fuel i s, h.P s → cycles - i ≤ fuel → o.go cycles fuel i s = o.cyclesN (cycles - i) s := by
   intro fuel
   induction fuel with
   | zero =>
-    intro i s hf
+    intro i s _ hf
     have : cycles - i = 0 := by omega
     simp [go, this, cyclesN]
   | succ fuel ih =>
-    intro i s hf
+    intro i s hp hf
     unfold go
     by_cases hi : i < cycles
     · simp only [hi, if_true]
       obtain ⟨n, hn⟩ : ∃ n, cycles - i = n + 1 := ⟨cycles - i - 1, by omega⟩
       by_cases hs : o.skipAllowed s = true
-      · simp only [hs, if_true, h.skip_eq]
-        have hkdef : cycles - i - 1 = n := by omega
+      · have hkdef : cycles - i - 1 = n := by omega
+        simp only [hs, if_true, h.skip_eq s (cycles - i - 1) hp hs (by omega)]
         rw [hkdef]
         by_cases hlt : min n (h.horizon s) < n
         · -- the skip stops at the peripherals' horizon: one extra tick, then the loop body
@@ -97,7 +133,7 @@ theorem go_eq_cycles (h : FastForwardOk o) (cycles : Nat) :
           have hslow : o.cyclesN (cycles - i) s =
               (o.ticksN (h.horizon s + 1) s) >>= fun s' => o.cyclesN (cycles - i - (h.horizon s + 1)) s' := by
             have : cycles - i = (h.horizon s + 1) + (cycles - i - (h.horizon s + 1)) := by omega
-            rw [this, cyclesN_add, cycles_eq_ticks h _ s hs (by omega)]
+            rw [this, cyclesN_add, cycles_eq_ticks h _ s hp hs (by omega)]
             congr 1
             funext s'
             congr 1
@@ -106,10 +142,12 @@ theorem go_eq_cycles (h : FastForwardOk o) (cycles : Nat) :
           cases ht : o.ticksN (h.horizon s) s with
           | error e => rfl
           | ok s1 =>
+            have hp1 := P_ticksN h _ s s1 hp ht
             simp only [Except.map, bind, Except.bind, hcond, if_true, pure, Except.pure, ticksN]
             cases ht2 : o.tick s1 with
             | error e => rfl
             | ok s2 =>
+              have hp2 := h.P_tick s1 s2 hp1 ht2
               simp only []
               obtain ⟨m, hm⟩ : ∃ m, cycles - i - (h.horizon s + 1) = m + 1 := ⟨cycles - i - (h.horizon s + 1) - 1, by omega⟩
               rw [hm]
@@ -122,7 +160,7 @@ theorem go_eq_cycles (h : FastForwardOk o) (cycles : Nat) :
                 | error e => rfl
                 | ok s4 =>
                   simp only []
-                  rw [ih (i + h.horizon s + 1 + 1) s4 (by omega)]
+                  rw [ih (i + h.horizon s + 1 + 1) s4 (h.P_cycle s2 s3 s4 hp2 hb ht3) (by omega)]
                   congr 1
                   omega
         · -- the skip covers the rest of the slice: no extra tick, the body runs on the last cycle
@@ -130,11 +168,12 @@ theorem go_eq_cycles (h : FastForwardOk o) (cycles : Nat) :
           have hcond : ¬ (i + n < cycles - 1) := by omega
           rw [hk]
           have hslow : o.cyclesN (cycles - i) s = (o.ticksN n s) >>= fun s' => o.cyclesN 1 s' := by
-            rw [hn, cyclesN_add n 1, cycles_eq_ticks h n s hs (by omega)]
+            rw [hn, cyclesN_add n 1, cycles_eq_ticks h n s hp hs (by omega)]
           rw [hslow]
           cases ht : o.ticksN n s with
           | error e => rfl
           | ok s1 =>
+            have hp1 := P_ticksN h _ s s1 hp ht
             simp only [Except.map, bind, Except.bind, hcond, if_false, pure, Except.pure, cyclesN]
             cases hb : o.body s1 with
             | error e => rfl
@@ -144,7 +183,7 @@ theorem go_eq_cycles (h : FastForwardOk o) (cycles : Nat) :
               | error e => rfl
               | ok s3 =>
                 simp only []
-                rw [ih (i + n + 1) s3 (by omega)]
+                rw [ih (i + n + 1) s3 (h.P_cycle s1 s2 s3 hp1 hb ht2) (by omega)]
                 have : cycles - (i + n + 1) = 0 := by omega
                 rw [this]; rfl
       · simp only [hs, Bool.false_eq_true, if_false, pure, Except.pure, bind, Except.bind]
@@ -158,7 +197,7 @@ theorem go_eq_cycles (h : FastForwardOk o) (cycles : Nat) :
           | error e => rfl
           | ok s2 =>
             simp only []
-            rw [ih (i + 1) s2 (by omega)]
+            rw [ih (i + 1) s2 (h.P_cycle s s1 s2 hp hb ht) (by omega)]
             congr 1
             omega
     · simp only [hi, if_false]
@@ -166,12 +205,12 @@ theorem go_eq_cycles (h : FastForwardOk o) (cycles : Nat) :
       rw [this]; rfl
 
 /-- **`Run(n)` is `n` single cycles.**  The fast-forward taken while the program idles is
-unobservable: with the three obligations of `FastForwardOk`, executing `n` cycles in one call
-gives exactly the state (and abort behaviour) of stepping every cycle individually. -/
-theorem run_eq_cycles (h : FastForwardOk o) (n : Nat) (s : S) :
+unobservable: with the obligations of `FastForwardOk`, executing `n` cycles in one call gives
+exactly the state (and abort behaviour) of stepping every cycle individually. -/
+theorem run_eq_cycles (h : FastForwardOk o) (n : Nat) (hn : n ≤ h.bound) (s : S) (hp : h.P (o.start s)) :
     o.run n s = o.cyclesN n (o.start s) := by
   unfold run
-  rw [go_eq_cycles h n n 0 (o.start s) (by omega)]
+  rw [go_eq_cycles h n hn n 0 (o.start s) hp (by omega)]
   rfl
 
 
@@ -179,76 +218,78 @@ theorem run_eq_cycles (h : FastForwardOk o) (n : Nat) (s : S) :
 
 /-- An observation of the state that forgets exactly what `Run` re-initialises at its start (the
 `idle` flag) and that the body and the tick respect. -/
-structure ObsOk (o : LoopOps S) {O : Type} (obs : S → O) where
+structure ObsOk (o : LoopOps ε S) (h : FastForwardOk o) {O : Type} (obs : S → O) where
   start_obs : ∀ s, obs (o.start s) = obs s
-  body_congr : ∀ s t, obs s = obs t → (o.body s).map obs = (o.body t).map obs
+  P_start : ∀ s, h.P s → h.P (o.start s)
+  body_congr : ∀ s t, h.P s → h.P t → obs s = obs t → (o.body s).map obs = (o.body t).map obs
   tick_congr : ∀ s t, obs s = obs t → (o.tick s).map obs = (o.tick t).map obs
 
-private theorem map_eq_cases {α β : Type} {x y : R α} {f : α → β} (h : x.map f = y.map f) :
+private theorem map_eq_cases {α β : Type} {x y : Except ε α} {f : α → β} (h : x.map f = y.map f) :
     (∃ e, x = .error e ∧ y = .error e) ∨ (∃ a b, x = .ok a ∧ y = .ok b ∧ f a = f b) := by
   cases x <;> cases y <;> simp [Except.map] at h
   · left; exact ⟨_, rfl, by rw [h]⟩
   · right; exact ⟨_, _, rfl, rfl, h⟩
 
-private theorem cyclesN_congr {O : Type} {obs : S → O} (hob : ObsOk o obs) (n : Nat) :
-    ∀ s t, obs s = obs t → (o.cyclesN n s).map obs = (o.cyclesN n t).map obs := by
+private theorem cyclesN_congr {O : Type} {obs : S → O} {h : FastForwardOk o} (hob : ObsOk o h obs) (n : Nat) :
+    ∀ s t, h.P s → h.P t → obs s = obs t → (o.cyclesN n s).map obs = (o.cyclesN n t).map obs := by
   induction n with
-  | zero => intro s t h; simp [cyclesN, Except.map, h]
+  | zero => intro s t _ _ hst; simp [cyclesN, Except.map, hst]
   | succ n ih =>
-    intro s t h
+    intro s t hps hpt hst
     simp only [cyclesN]
-    rcases map_eq_cases (hob.body_congr s t h) with ⟨e, h1, h2⟩ | ⟨a, b, h1, h2, hab⟩
+    rcases map_eq_cases (hob.body_congr s t hps hpt hst) with ⟨e, h1, h2⟩ | ⟨a, b, h1, h2, hab⟩
     · rw [h1, h2]
     · rw [h1, h2]
       simp only [bind, Except.bind]
       rcases map_eq_cases (hob.tick_congr a b hab) with ⟨e, h3, h4⟩ | ⟨a', b', h3, h4, hab'⟩
       · rw [h3, h4]
-      · rw [h3, h4]; exact ih a' b' hab'
+      · rw [h3, h4]
+        exact ih a' b' (h.P_cycle s a a' hps h1 h3) (h.P_cycle t b b' hpt h2 h4) hab'
 
 /-- **Any two-way slicing.**  `Run(m + n)` and `Run(m)` followed by `Run(n)` are observationally
 equal (same registers, memory, peripheral state and events — everything `obs` keeps), including
 when either call aborts. -/
-theorem run_slice {O : Type} {obs : S → O} (h : FastForwardOk o) (hob : ObsOk o obs) (m n : Nat) (s : S) :
+theorem run_slice {O : Type} {obs : S → O} (h : FastForwardOk o) (hob : ObsOk o h obs) (m n : Nat)
+    (hb : m + n ≤ h.bound) (s : S) (hp : h.P s) :
     (o.run (m + n) s).map obs = ((o.run m s) >>= fun s' => o.run n s').map obs := by
-  rw [run_eq_cycles h, run_eq_cycles h, cyclesN_add]
+  have hp0 := hob.P_start s hp
+  rw [run_eq_cycles h _ hb s hp0, run_eq_cycles h m (by omega) s hp0, cyclesN_add]
   cases hm : o.cyclesN m (o.start s) with
   | error e => rfl
   | ok s1 =>
+    have hp1 := P_cyclesN h m _ s1 hp0 hm
     simp only [bind, Except.bind]
-    rw [run_eq_cycles h]
-    exact cyclesN_congr hob n s1 (o.start s1) (hob.start_obs s1).symm
+    rw [run_eq_cycles h n (by omega) s1 (hob.P_start s1 hp1)]
+    exact cyclesN_congr hob n s1 (o.start s1) hp1 (hob.P_start s1 hp1) (hob.start_obs s1).symm
 
 /-- Run a list of slices one after the other. -/
-def runSlices (o : LoopOps S) : List Nat → S → R S
+def runSlices (o : LoopOps ε S) : List Nat → S → Except ε S
   | [], s => .ok s
   | n :: ns, s => (o.run n s) >>= fun s' => runSlices o ns s'
 
-private theorem runSlices_congr {O : Type} {obs : S → O} (h : FastForwardOk o) (hob : ObsOk o obs)
-    (ns : List Nat) : ∀ s t, obs s = obs t → (runSlices o ns s).map obs = (runSlices o ns t).map obs := by
-  induction ns with
-  | nil => intro s t hst; simp [runSlices, Except.map, hst]
-  | cons n ns ih =>
-    intro s t hst
-    simp only [runSlices, run_eq_cycles h]
-    have hst' : obs (o.start s) = obs (o.start t) := by rw [hob.start_obs, hob.start_obs, hst]
-    rcases map_eq_cases (cyclesN_congr hob n _ _ hst') with ⟨e, h1, h2⟩ | ⟨a, b, h1, h2, hab⟩
-    · rw [h1, h2]
-    · rw [h1, h2]; exact ih a b hab
+/-- The invariant holds after every completed `Run`. -/
+theorem P_run {O : Type} {obs : S → O} (h : FastForwardOk o) (hob : ObsOk o h obs) (n : Nat) (hn : n ≤ h.bound)
+    (s s' : S) (hp : h.P s) (hr : o.run n s = .ok s') : h.P s' := by
+  rw [run_eq_cycles h n hn s (hob.P_start s hp)] at hr
+  exact P_cyclesN h n _ s' (hob.P_start s hp) hr
 
 /-- **Every partition of the cycle budget.**  Executing the slices `n₁, n₂, …` in sequence is
 observationally equal to one call with their sum. -/
-theorem run_partition {O : Type} {obs : S → O} (h : FastForwardOk o) (hob : ObsOk o obs) (ns : List Nat) :
-    ∀ s, (runSlices o ns s).map obs = (o.run ns.sum s).map obs := by
+theorem run_partition {O : Type} {obs : S → O} (h : FastForwardOk o) (hob : ObsOk o h obs) (ns : List Nat)
+    (hb : ns.sum ≤ h.bound) :
+    ∀ s, h.P s → (runSlices o ns s).map obs = (o.run ns.sum s).map obs := by
   induction ns with
   | nil =>
-    intro s
-    simp only [runSlices, List.sum_nil, run_eq_cycles h, cyclesN, Except.map, hob.start_obs]
+    intro s hp
+    simp only [runSlices, List.sum_nil, run_eq_cycles h 0 (by omega) s (hob.P_start s hp), cyclesN, Except.map,
+      hob.start_obs]
   | cons n ns ih =>
-    intro s
-    rw [List.sum_cons, run_slice h hob n ns.sum s]
+    intro s hp
+    rw [List.sum_cons] at hb
+    rw [List.sum_cons, run_slice h hob n ns.sum hb s hp]
     simp only [runSlices]
     cases hn : o.run n s with
     | error e => rfl
-    | ok s1 => exact ih s1
+    | ok s1 => exact ih (by omega) s1 (P_run h hob n (by omega) s s1 hp hn)
 
 end Teakra.LoopOps
